@@ -111,6 +111,12 @@ pub struct RoundSpec {
     pub sticky: u8,
     /// A stalled thread is held at that callback until no other thread can move (slow node).
     pub stalls: Vec<At>,
+    /// A round executed on the same pool *after* a round in which callbacks panicked (the caller
+    /// caught the unwind and tries again). The pool may refuse (unwind) - but no callback of this
+    /// round may be live or start once that `execute_on` call is over. Every worker that does enter
+    /// a callback of this round is held there until the call is over (slow callback).
+    #[serde(default)]
+    pub aftermath: bool,
     pub panics: Vec<At>,
 }
 
